@@ -40,6 +40,8 @@ def _do(job):
         return R.rand_history_lines(random.Random(case["seed"]), case["steps"])
     if kind == "api":
         return R.api_case(case)
+    if kind == "reuse":
+        return R.reuse_case(case)
     if kind == "shape":
         return R.shape_case(case)
     if kind == "exc":
@@ -82,7 +84,9 @@ def judge_jobs(ctx: Ctx, jobs, kind="c05"):
                 cases.append((k, case))
     for ln in lines:
         ctx.count(1)
-        if ln["op"] == "hdrx":
+        if ln["op"] == "reuse":
+            ctx.nontrivial.add(("reuse", ln["shape"], ln["pt"], ln["ncb"], tuple((e["ev"], e["via"], e["method"], e["code"]) for e in ln["events"])))
+        elif ln["op"] == "hdrx":
             ctx.nontrivial.add(("api", ln["target"], ln["c"]["kind"], ln["exc"]))
         elif ln["op"] == "shape":
             ctx.nontrivial.add(("shape", ln["init"]["kind"], ln["init"]["pt"], tuple((h["o"], h["k"], h["b"], h["exc"]) for h in ln["hist"][:3]),
@@ -103,7 +107,10 @@ def judge_jobs(ctx: Ctx, jobs, kind="c05"):
     for r in rejects:
         ln = lines[r["t"]]
         k, case = cases[r["t"]]
-        if k == "api":
+        if k == "reuse":
+            ctx.violation("%s:%s:%s:%dcb" % (r["clause"], ln["shape"], "passthrough" if ln["pt"] else "wrapped", ln["ncb"]),
+                          r["clause"], case, kind="reuse")
+        elif k == "api":
             ctx.violation(f"Kind{r['clause']}:{case['api']}:{case['kind']}", "Kind" + r["clause"], case, kind="api")
         elif k == "shape":
             ctx.violation(shape_key(r["clause"], ln), r["clause"], case, kind="shape")
@@ -164,6 +171,17 @@ def growth_jobs(ctx: Ctx, rng):
         jobs.append(("shape", R.rand_shape_case(rng)))
     for spec in R.exception_specs(rng, 6 if q else 80):
         jobs.append(("exc", spec))
+    # one response object sent several times (Reuse.tla / MCReuse.tla)
+    ctx.assumptions += ["reuse histories: every send must raise each callback's count and the body's own close count by exactly "
+                        "one; an explicit Response.close() (context manager) between sends is recorded but not judged; a generator "
+                        "body's close is not countable; the FileWrapper body wraps a file whose close() only counts"]
+    ctx.model_check(AREA, "MCReuse", "MCQ_reuse", timeout=900)
+    if not q:
+        ctx.model_check(AREA, "MCReuse", "MCT_reuse", timeout=1800)
+        ctx.model_check(AREA, "MCReuse", "MCT_reuse0", timeout=1800)
+    _mutants(ctx, "MCReuse", ["MCB_reuse_regclose"] if q else ["MCB_reuse_regclose", "MCB_reuse_dup"])
+    for case in R.reuse_cases(rng, 0 if q else 6000):
+        jobs.append(("reuse", case))
     return jobs
 
 
@@ -337,7 +355,7 @@ def run(ctx: Ctx):
     lines = judge_jobs(ctx, jobs)
     repo_test_traces(ctx, REPO_QUICK_FILES if q else ("tests",), 80 if q else 110, 400 if q else 550)
     for ln in lines[:: max(1, len(lines) // 5)]:
-        if ln["op"] in ("shape", "exc", "hdrx"):
+        if ln["op"] in ("shape", "exc", "hdrx", "reuse"):
             continue
         if ln["op"] == "fin":
             i, o = ln["inp"], ln["out"]
